@@ -55,6 +55,16 @@ def build(tier):
     ]
     import cgd
     targets += cgd.targets(COMMON, upd, hd)
+    ls_common = dict(COMMON, self_struct=None, calls=[(r'^cubic\|', 'nv_cubic({&0}, {&1})'), (r'^quadratic\|', 'nv_quadratic({&0}, {&1})'),
+                                                       (r'^bisection\|', 'lstep_bisection')] + CALLS)
+    bis = lambda: Fn('lstep_bisection', 'src/solver/lstep.cpp', 'bisection', flt='lsearch_step_t::', **ls_common)
+    itp = Fn('lstep_interpolate', 'src/solver/lstep.cpp', 'interpolate', flt='lsearch_step_t::', **ls_common)
+    targets += [Target('lstep_interpolate', [itp, bis()], 'specs/C07/lstep.h', replace=['lstep_bisection']),
+                Target('lstep_bisection', [bis()], 'specs/C07/lstep.h'),
+                # lsearch_step_t(t, f, g): the constructor the stub nv_lstep_make3 stands for (the (state, descent, t) overload delegates to it)
+                Target('lstep_ctor3', [Fn('lstep_ctor3', 'src/solver/lstep.cpp', 'lsearch_step_t', flt='lsearch_step_t::lsearch_step_t', kinds=('CXXConstructorDecl',),
+                                          select=lambda d: len(astload.param_types(d)) == 3 and all('solver_state_t' not in t for t in astload.param_types(d)),
+                                          **dict(ls_common, self_struct='struct nv_lstep'))], 'specs/C07/lstep.h')]
     import pred_smt
     import step_smt
     import adv_smt
@@ -66,11 +76,25 @@ def build(tier):
     fns = [f for _, pf in parts for f in pf]
     return {
         'targets': targets, 'vcs': vcs, 'functions': fns,
-        'decided': ['backtrack / LeMarechal / Fletcher(+zoom): success => advertised predicates were evaluated true on the current trial point with the returned step, and the state is the valid evaluation at x0+t*d; loops terminate (variant max_iterations - i)'],
-        'not_decided': ['success on convex quadratics (needs the numerics of interpolation)', 'CG_DESCENT / More-Thuente bodies'],
+        'decided': ['backtrack / LeMarechal / Fletcher(+zoom): success => advertised predicates were evaluated true on the current trial point with the returned step, and the state is the valid evaluation at x0+t*d; loops terminate (variant max_iterations - i)',
+                    'acceptance predicates has_armijo / has_wolfe / has_strong_wolfe / has_approx_armijo / has_approx_wolfe / has_descent / dg equal the textbook formulas of the property over the reals (dot products opaque); has_descent (real body, IEEE comparisons) refuses a NaN slope and is the guard of lsearchk_t::get',
+                    'step sanity over the reals: lsearchk_t::get hands do_get a step > 0 (stpmin = 10 eps in (0,1], clamp, *0.3, *3); backtracking / LeMarechal / Fletcher / zoom: every std::clamp has lower <= upper and a lower bound > 0, the bracket invariants (0 <= L < t < R; 0 <= prev < curr = t; non-negative zoom bracket) are inductive, success => returned step > 0 and state evaluated at exactly that step',
+                    'lsearch_step_t::interpolate returns a finite value or else the bisection point 0.5*(u.t+v.t) for every mode; bisection and the (t, f, g) constructor equal their definitions',
+                    'More-Thuente do_get (+ dcstep): success => the state is the valid evaluation at the returned step, the value / slope read by the convergence test are those of the current trial state, <= max_iterations evaluations, the loop terminates; its convergence exit implies Armijo + strong Wolfe (over the reals)',
+                    'CG_DESCENT: interval_t constructor / updateA / updateB / done, make_params, move, updateU, update, bracket and the move_update_and_check_done lambda under protocol contracts (tentative state = evaluation at interval.step_size; done() true => criterion pair evaluated true on the tentative point or give-up; every evaluation but one per updateU / lambda call is paid by the shared budget); do_get composed from these contracts: success => state is the valid evaluation at the returned step, <= 7*max_iterations+1 evaluations, the loops terminate',
+                    'REFUTED on the unchanged library (genuine, natively replayed on f(x)=x^2): More-Thuente and CG_DESCENT report success at give-up exits where the advertised conditions do not hold (advertised/morethuente_do_get, advertised/cgdescent_do_get)'],
+        'not_decided': ['success on convex quadratics (needs the numerics of interpolation)',
+                        'More-Thuente: positivity of the returned step (the fallback `stp = stx` may hand back the origin; excluding it needs the numerics of dcstep) and which of the two interpolation stages is active (the stage switch only selects the arguments of dcstep: no protocol-level consequence)',
+                        'CG_DESCENT: positivity of the returned step (secant / theta-combination numerics)',
+                        'finiteness proper: over the reals every value is finite; overflow of 0.5*(u.t+v.t) and NaN bracket ends are outside the real model'],
         'assumptions': ['solver_state_t::update(x) makes the state the single evaluation at x (assumed contract)',
-                        'parameters lie in their registered domains (0<c1<c2<1, 1<=max_iterations<=10000, tau1>2, 0<safeguard<0.5)',
-                        'lsearch_step_t::interpolate returns an arbitrary double (havoc)'],
+                        'parameters lie in their registered domains (0<c1<c2<1, 1<=max_iterations<=10000, tau1>2, 0<safeguard<0.5, 0<tau2<tau3<=0.5, 0<delta<1, 0<theta<1, ro>1, 0<gamma<1, epsilon>0)',
+                        'lsearch_step_t::cubic / quadratic / secant return an arbitrary double (havoc); in the protocol targets of back end A lsearch_step_t::interpolate is an arbitrary double as well',
+                        'IEEE double treated as real in the pred/, steps/ and advertised/ obligations (back end B); std::isfinite is true there; machine epsilon = 2^-52; epsilon0 / epsilon1 are some positive constants',
+                        'Eigen dot product is an opaque symmetric real function of its two operands',
+                        'back end B uses the contracts of lsearchk_t::update, fletcher zoom, interval_t::done, bracket, move_update_and_check_done, make_params and the interval_t constructor in the form proved by back end A (restated as SMT in step_smt.py / adv_smt.py: the correspondence of the two statements is by inspection)',
+                        'More-Thuente over the reals: dcstep overwrites its eight by-reference results with arbitrary values (its real body is under the back-end-A target morethuente_do_get)',
+                        'the ghost records of the approximate predicates (nv_cgd) are not part of the frame of the virtual do_get contract used by lsearchk_t::get (they are specification-only objects)'],
         'trusted': [],
     }
 
